@@ -22,6 +22,7 @@ type res03 struct {
 	coqOps   []string
 	coqRes   []string
 	eff      []Op // operations actually performed (illegal ones skipped)
+	cut      int  // with a violation: the number of leading operations that produced it
 	viol     *violation
 	panicked bool
 	stats    counts
@@ -57,7 +58,7 @@ func optCoq(v []byte) string {
 	if v == nil {
 		return "(RVal None)"
 	}
-	return "(RVal (Some " + coqout.Bytes(v) + "))"
+	return "(RVal (Some " + coqBytes(v) + "))"
 }
 
 func runC03(c Case) (res *res03) {
@@ -65,14 +66,18 @@ func runC03(c Case) (res *res03) {
 	var e *env
 	var tree mkvs.Tree
 	var stack []mkvs.OverlayTree
+	at := -1 // index of the operation being performed
 	fail := func(kind, f string, a ...any) {
 		if res.viol == nil {
 			res.viol = &violation{kind: kind, what: fmt.Sprintf(f, a...)}
+			res.cut = at + 1
 		}
 	}
 	defer func() {
 		if p := recover(); p != nil {
 			res.viol = &violation{kind: "panic", what: fmt.Sprintf("implementation panicked: %v", p)}
+			res.cut = at + 1
+			debugStack()
 			res.panicked = true
 		}
 		for i := len(stack) - 1; i >= 0; i-- {
@@ -103,7 +108,17 @@ func runC03(c Case) (res *res03) {
 	var lastRoot node.Root
 
 	for i, o := range c.Ops {
+		at = i
 		coqOp, coqRes := "", "RUnit"
+		switch o.K {
+		case "ins", "rem", "remex", "get", "iter":
+			if !o.Rewind {
+				res.stats.countKey(o.Key)
+			}
+			if o.K == "ins" {
+				res.stats.countVal(o.Val)
+			}
+		}
 		switch o.K {
 		case "ins":
 			if err = top().Insert(ctx, nn(o.Key), nn(o.Val)); err != nil {
@@ -111,22 +126,22 @@ func runC03(c Case) (res *res03) {
 				return
 			}
 			cur()[string(o.Key)] = o.Val
-			coqOp = "SIns " + coqout.Bytes(o.Key) + " " + coqout.Bytes(o.Val)
+			coqOp = "SIns " + coqBytes(o.Key) + " " + coqBytes(o.Val)
 		case "rem":
 			if err = top().Remove(ctx, nn(o.Key)); err != nil {
 				fail("error", "unexpected error: op %d Remove: %v", i, err)
 				return
 			}
 			delete(cur(), string(o.Key))
-			coqOp = "SRem " + coqout.Bytes(o.Key)
+			coqOp = "SRem " + coqBytes(o.Key)
 		case "remex", "get":
 			var v []byte
 			if o.K == "get" {
 				v, err = top().Get(ctx, nn(o.Key))
-				coqOp = "SGet " + coqout.Bytes(o.Key)
+				coqOp = "SGet " + coqBytes(o.Key)
 			} else {
 				v, err = top().RemoveExisting(ctx, nn(o.Key))
-				coqOp = "SRemEx " + coqout.Bytes(o.Key)
+				coqOp = "SRemEx " + coqBytes(o.Key)
 			}
 			if err != nil {
 				fail("error", "unexpected error: op %d %s: %v", i, o.K, err)
@@ -207,14 +222,14 @@ func runC03(c Case) (res *res03) {
 			}
 			var items []string
 			for _, x := range got {
-				items = append(items, "("+coqout.Bytes(x.k)+", "+coqout.Bytes(x.v)+")")
+				items = append(items, "("+coqBytes(x.k)+", "+coqBytes(x.v)+")")
 			}
 			if len(items) == 0 {
 				coqRes = "(RIter (@nil (bytes * bytes)))"
 			} else {
 				coqRes = "(RIter " + coqout.List(items) + ")"
 			}
-			coqOp = fmt.Sprintf("(SIter %s %d%%nat)", coqout.Bytes(seek), o.N)
+			coqOp = fmt.Sprintf("(SIter %s %d%%nat)", coqBytes(seek), o.N)
 		case "tcommit":
 			_, h, err := tree.Commit(ctx, ns, version)
 			if err != nil {
@@ -361,25 +376,26 @@ func genC03(r *prng.R) Case {
 
 // shrink03 greedily drops operations while the oracle reports the same kind
 // of violation; operations that became illegal are dropped from the description.
-func shrink03(c Case, kind string) Case {
-	budget := shrinkBudget
-	for changed := true; changed && budget > 0; {
-		changed = false
-		for i := 0; i < len(c.Ops) && budget > 0; i++ {
-			cand := c.withOps(dropOp(c.Ops, i))
-			budget--
-			if r := runC03(cand); r.viol != nil && r.viol.kind == kind {
-				if !r.panicked && r.viol.kind != "error" {
-					// the run went through: keep only what was performed, up to the end
-					cand = cand.withOps(r.eff)
-				}
-				c = cand
-				changed = true
-				i--
-			}
+func shrink03(c Case, kind string, cut int) Case {
+	test := func(ops []Op) ([]Op, bool) {
+		r := runC03(c.withOps(ops))
+		if r.viol == nil || r.viol.kind != kind {
+			return nil, false
+		}
+		if r.panicked || kind == "error" {
+			return ops, true // the run stopped early: keep the description as it is
+		}
+		// everything after the first failing answer is irrelevant, but kept simple: what was performed
+		return r.eff, true
+	}
+	ops := c.Ops
+	if cut > 0 && cut < len(ops) {
+		// first drop everything after the operation at which the violation showed
+		if eff, ok := test(ops[:cut]); ok && len(eff) < len(ops) {
+			ops = eff
 		}
 	}
-	return c
+	return c.withOps(shrinkOps(ops, test))
 }
 
 func mainC03(seed uint64, n int, out string, rp *replayInput) {
@@ -419,12 +435,15 @@ func mainC03(seed uint64, n int, out string, rp *replayInput) {
 			sum.Sample(map[string]any{"desc": c}, 3)
 		}
 		if r.viol != nil {
-			sc := shrink03(c, r.viol.kind)
-			what := r.viol.what
-			if r2 := runC03(sc); r2.viol != nil {
-				what = r2.viol.what
+			sum.Count("violations", r.viol.kind+"/"+c.Backend)
+			sc, what := c, r.viol.what
+			if firstOfItsKind(r.viol.kind, c) {
+				sc = shrink03(c, r.viol.kind, r.cut)
+				if r2 := runC03(sc); r2.viol != nil {
+					what = r2.viol.what
+				}
 			}
-			sum.Violations = append(sum.Violations, map[string]any{"what": what, "case": sc})
+			sum.Violations = append(sum.Violations, map[string]any{"what": what, "case": sc, "evicting_config": evicting(c)})
 		}
 	}
 	if rp != nil {
